@@ -46,6 +46,27 @@ func TestVerifC14Wire(t *testing.T) {
 			}
 		}
 	}
+	// blackouts: the client's first flight arrives, everything it sends afterwards is lost for a while, so
+	// the server runs into PTOs while the address is unvalidated (probe packets are subject to the limit
+	// too).  Chain lengths vary the size of the server's flight, hence which probe of a PTO pair crosses 3x.
+	for _, cl := range []string{"plain", "unil", "Chrome_115_IPv4", "Firefox_116A", "Chrome_146_IPv4"} {
+		for _, chain := range []int{0, 1, 2, 3, 4, 5, 6, 8, 10, 12, 14, 16} {
+			for _, from := range []int{1, 2, 3} {
+				for _, n := range []int{5, 9} {
+					if !l.Thorough() && (chain+from+n)%2 == 1 {
+						continue
+					}
+					var fs []simworld.Fault
+					for o := from; o < from+n; o++ {
+						fs = append(fs, simworld.Fault{Dir: wiretap.C2S, Ordinal: o, Action: acts[0]})
+					}
+					cases = append(cases, &quicworld.ConnCase{Name: fmt.Sprintf("blackout/c2s-o%d+%d/%s/chain%d", from, n, cl, chain), Client: cl, CertChain: chain,
+						Schedule: simworld.Schedule{Faults: fs}, Transfer: quicworld.Scenario("S1", uint64(idx)), ConnIdx: idx, RTTms: 10})
+					idx++
+				}
+			}
+		}
+	}
 	quicworld.RunSuite(t, l, cases, func(c *evlog.Case, cc *quicworld.ConnCase, r *quicworld.CaseResult) {
 		var checks, crossing int64
 		for _, tp := range r.Taps {
